@@ -11,4 +11,14 @@ REGISTRY = {
         'explanation': 'contracts on get_ranges / Static._on_request discharged path-wise by z3/cvc5',
         'not_decided': ['multipart/byteranges generator body of serve_file', 'URL.abspath/escape of the HTTP front-end guard'],
     },
+    'C18': {
+        'modules': ['contracts.line_irc'], 'level': 'proof',
+        'level_text': 'For every message state (any prefix, command, argument list) Message.__str__/__bytes__ yield exactly one '
+                      'CRLF-terminated line or raise Error; splitLines and Line._on_read obey the stash discipline for every '
+                      'input; segmentation invariance then follows by a Lean-checked lemma from the re.split concatenation axiom.',
+        'level_note': 'trusted: re.split axiom (validated only up to a bound against CPython), str.join containment lemma, '
+                      'str.encode; the parsemsg round trip has only a bounded stand-in (labelled, not counted as proved).',
+        'explanation': 'contracts on Message and the line splitter discharged by z3/cvc5; Lean lemma for all segmentations',
+        'not_decided': ['parsemsg(bytes(m)) round trip: bounded enumeration only'],
+    },
 }
